@@ -24,6 +24,9 @@ RULE = (
     "their documented rewrite), initial pull fits the input info; (c) producer fully set and all consumers "
     "compatible => must succeed. non-trivial = >=1 unset field filled from the other side, or >=2 consumers, "
     "or a rewriting adapter. distinct = canonical JSON."
+    " A quarter of the structured grids carry a coordinate reference system (EPSG:4326, OGC:CRS84 = same datum with the axes "
+    "swapped, EPSG:32633); equal numbers under another reference system are other locations => conflict. crs_enum: geometry x "
+    "location x producer CRS x consumer CRS x layout x adapter x listing order, otherwise conflict-free (512 cases, exhaustive)."
 )
 ASSUMPTIONS = [
     "grid compatibility oracle = equal sets of data locations per vf/h_grid.py; units oracle = vf/h_units.py",
@@ -139,11 +142,14 @@ def grid_of(g):
     base = dict(GEOMS[g[0]])
     base["loc"] = g[1]
     cfg = hg.same_geometry_layout(base, g[2], g[3], g[4])
+    if len(g) > 5 and g[5] is not None:
+        cfg = dict(cfg, crs=g[5])  # coordinate reference system: part of what the locations mean
     return hg.build(cfg), cfg
 
 
 def same_locations(g1, g2):
-    return g1[0] == g2[0] and g1[1] == g2[1]  # same geometry (or NoGrid dim) and same data location
+    crs1, crs2 = (g1[5] if len(g1) > 5 else None), (g2[5] if len(g2) > 5 else None)
+    return g1[0] == g2[0] and g1[1] == g2[1] and crs1 == crs2  # same geometry (or NoGrid dim), data location and CRS
 
 
 def mask_of(m, cfg):
@@ -311,7 +317,10 @@ def check(case, ctx):
     ctx.event(f"outcome={got}")
     ctx.event("expected-conflict" if conflicts else ("under-specified" if under else "expected-ok"))
     filled = any(c["grid"] is None or c["units"] is None or not c["time"] for c in case["cons"]) or not full
-    ctx.nontrivial(filled or len(case["cons"]) >= 2 or ada in ("sum", "grid2val", "val2grid"))
+    crs_differs = any(p["grid"] and c["grid"] and list(p["grid"][5:]) != list(c["grid"][5:]) for c in case["cons"])
+    if crs_differs:
+        ctx.event("reference-systems-differ")
+    ctx.nontrivial(filled or len(case["cons"]) >= 2 or ada in ("sum", "grid2val", "val2grid") or crs_differs)
     info = f" | case {case}"
     if got == "stuck" and any(c.get("late", 0) >= 2 for c in case["cons"]):
         # a consumer that sits idle for a sweep may trip the stall detection of the connect loop: not judged here
@@ -406,7 +415,14 @@ def grid_spec(draw):
         return ["N", 0]
     if k == "N1":
         return ["N", 1]
-    return [k, draw(st.sampled_from(["CELLS", "POINTS"])), draw(st.sampled_from("CF")), draw(st.booleans()), [draw(st.booleans()), draw(st.booleans())]]
+    g = [k, draw(st.sampled_from(["CELLS", "POINTS"])), draw(st.sampled_from("CF")), draw(st.booleans()), [draw(st.booleans()), draw(st.booleans())]]
+    if draw(st.integers(0, 3)) == 0:
+        g.append(draw(st.sampled_from(CRS_POOL)))
+    return g
+
+
+# EPSG:4326 and OGC:CRS84 are the same datum with the axes the other way round: the same numbers mean other places
+CRS_POOL = ["EPSG:4326", "OGC:CRS84", "EPSG:32633"]
 
 
 @st.composite
@@ -446,7 +462,9 @@ def case_st(draw):
         elif r < 10 and ada != "val2grid":
             cg = None
         elif r < 16 and base_g[0] != "N" and base_g[0] not in UFAM:
-            cg = [base_g[0], base_g[1], draw(st.sampled_from("CF")), draw(st.booleans()), [draw(st.booleans()), draw(st.booleans())]]
+            cg = [base_g[0], base_g[1], draw(st.sampled_from("CF")), draw(st.booleans()), [draw(st.booleans()), draw(st.booleans())]] + list(base_g[5:])
+            if len(base_g) > 5 and draw(st.booleans()):
+                cg[5] = draw(st.sampled_from([c for c in CRS_POOL if c != base_g[5]]))  # same numbers, other reference system
         elif r < 16 and base_g[0] in UFAM:
             cg = [base_g[0], draw(st.sampled_from(["CELLS", "POINTS"]))]
         elif r < 18 and base_g[0] in SIBLING:
@@ -478,10 +496,29 @@ def case_st(draw):
             "prehistory": draw(st.integers(0, 3)) == 0}
 
 
+def enum_crs(tier):
+    """every (geometry, location, producer CRS, consumer CRS, consumer layout, adapter, listing order): the link is
+    accepted iff the reference systems are the same value - the rest of the case is conflict-free"""
+    pool = [None] + CRS_POOL
+    for k in ("A", "R"):
+        for loc in ("CELLS", "POINTS"):
+            for pc in pool:
+                for cc in pool:
+                    for lay in (["C", False, [False, False]], ["F", True, [True, False]]):
+                        for ada in (None, "scale"):
+                            for order in ([0, 1], [1, 0]):
+                                pg = [k, loc, "C", False, [False, False]] + ([pc] if pc else [])
+                                cg = [k, loc] + lay + ([cc] if cc else [])
+                                yield {"prod": {"time": True, "grid": pg, "units": "m", "mask": "FLEX", "foo": "absent", "every_call": False},
+                                       "cons": [{"time": True, "grid": cg, "units": "m", "mask": "FLEX", "foo": "absent", "late": 0}],
+                                       "adapter": ada, "order": order, "prehistory": False}
+
+
 def parts():
     from . import c06
 
     return [
+        Part("crs_enum", check, enumerate=enum_crs, exhaustive=True),
         Part("compositions", check, strategy=case_st(), budget={"quick": 5000, "thorough": 120000}, fuzz={"thorough": 10000}),
         # metadata derived by transfer-rule lists (input-to-output, output-to-input, values): after connect both ends of
         # every link carry exactly what their declarations / rules give and the initial pulls are converted accordingly
